@@ -41,8 +41,8 @@ ASSUMPTIONS = [
     'judged "at most once" for that dispatch call; delivery order is not '
     'judged; a second handler base is given only to decorated classes and '
     'comes from another tree (no common ancestor); an UNDECORATED class with '
-    'several handler bases is not generated (which mapping plain attribute '
-    'lookup shows is not stated)',
+    'two handler bases is generated rarely (known finding: it shows the first '
+    "base's mapping only)",
 ]
 
 EVENTS = ['e0', 'e1', 'e2', 'e3']
@@ -63,8 +63,10 @@ def gen_one(rng, tier, scale=False):
         # tree (no common ancestor): it inherits both mappings, the first
         # base taking precedence, extended and overridden by its own
         base2 = None
-        if base is not None and decorated and not scale \
-                and rng.random() < 0.2:
+        # (an UNDECORATED class gets one in 3% of the cases only: plain
+        # attribute lookup shows it the first base's mapping - known finding)
+        if base is not None and not scale and rng.random() < (
+                0.2 if decorated else 0.03):
             cands = [j for j in range(i) if not (roots[j] & roots[base])]
             if cands:
                 base2 = rng.choice(cands)
@@ -143,6 +145,13 @@ def gen_one(rng, tier, scale=False):
             ops.append(['burst', [rng.choice(EVENTS)
                                   for _ in range(rng.randint(1, 4))],
                         rng.choice([None, 0, 1, 2])])
+    # a handler with its own mapping changes it and registers again
+    for hi, m in enumerate(inst_maps):
+        if m and rng.random() < 0.6:
+            ci = handlers[hi]
+            new = {ev: rng.choice(sorted(defined[ci]))
+                   for ev in rng.sample(EVENTS, rng.randint(1, 3))}
+            ops.insert(rng.randrange(len(ops) + 1), ['remap', hi, new])
     return {'classes': classes, 'handlers': handlers, 'scripts': scripts,
             'ops': ops, 'inst_maps': inst_maps}
 
@@ -245,7 +254,7 @@ def run_case(case):
         if dict(ev or {}) != inherited:
             res.div(-1, 'mapping-mismatch', f'H{ci}.__events__ differs from '
                     'bases-extended-and-overridden-by-own',
-                    expected=inherited, observed=ev)
+                    expected=inherited, observed=ev, cls=ci)
         # bases unaltered by decorating a subclass
         for bi in range(ci):
             obj, snap = snapshots[bi]
@@ -307,6 +316,18 @@ def run_case(case):
                 calls[c]['changed'].add(op[1])
         elif name == 'is':
             pass
+        elif name == 'remap':
+            h = handlers[op[1]]
+            if h is None or inside or stack or op[1] not in hmaps:
+                return
+            h.__events__ = dict(op[2])
+            hmaps[op[1]] = dict(op[2])
+            if op[1] in registered:
+                # registering again takes the new mapping over (and does
+                # not duplicate anything)
+                d.add_handler(h)
+                flags.add('re-registration')
+            flags.add('mapping-changed')
         elif name == 'burst':
             if inside or stack:
                 return
@@ -473,4 +494,8 @@ def run_case(case):
 
 
 def classify(case, div):
+    if div['kind'] == 'mapping-mismatch' and div.get('cls') is not None:
+        spec = case['classes'][div['cls']]
+        if not spec['decorated'] and spec.get('base2') is not None:
+            return 'undecorated-class-first-base-mapping-only'
     return None
